@@ -524,6 +524,33 @@ theorem wfi_lookup (vm : VM) (hi : WFI vm) (f : FUid) (i : Inst) (h : findInst v
   rw [hi.1] at this
   exact lookup_isSome_of_mem f vm.r.fx this
 
+theorem wfi_lookup_none (vm : VM) (hi : WFI vm) (f : FUid) (h : OMap.lookup f vm.r.fx = none) : findInst vm.ixs.ix f = none := by
+  cases hfi : findInst vm.ixs.ix f with
+  | none => rfl
+  | some i => obtain ⟨x, hx⟩ := wfi_lookup vm hi f i hfi; rw [h] at hx; cases hx
+
+/-- the body of `_abort_flow` starts with `state.flow_states[f]`-style reads of the flow's index entry: without a record it raises -/
+theorem vmAbortBody_no_record (rec : FUid → M Unit) (f : FUid) (sc : List Score) (d : Bool) (vm vm' : VM) (hw : WFI vm)
+    (hx : OMap.lookup f vm.r.fx = none) : vmAbortBody rec f sc d vm ≠ .ok () vm' := by
+  intro h
+  unfold vmAbortBody at h
+  simp only [bind, EStateM.bind] at h
+  rw [getInst_run_none f vm (wfi_lookup_none vm hw f hx)] at h
+  cases h
+
+/-- `deactivate_flow and _is_reference_activated_flow(…)` against the abstract short-circuit -/
+theorem deactivatesRef_refines (hν : Function.Injective ν) (hφ : Function.Injective φ) (d : Bool) (f : FUid) (vm : VM) (x : InstX)
+    (hx : OMap.lookup f vm.r.fx = some x) :
+    (∃ b, deactivatesRef d f vm = .ok b vm ∧
+      (if d = true then isRefActivated (absVM ν φ vm) (absFlow ν φ vm f x) else Except.ok false) = .ok b) ∨
+    (∃ msg, deactivatesRef d f vm = .error (.py "KeyError" msg) vm) := by
+  cases d with
+  | false => exact Or.inl ⟨false, rfl, rfl⟩
+  | true =>
+    rcases isReferenceActivated_refines ν φ hν hφ f vm x hx with ⟨b, hb1, hb2⟩ | ⟨msg, he, _⟩
+    · exact Or.inl ⟨b, hb1, by simpa using hb2⟩
+    · exact Or.inr ⟨msg, he⟩
+
 /-- **the body of `_abort_flow`** (guard, restart guard of a STARTING activated flow, child loop, tail) -/
 theorem body_refines (hν : Function.Injective ν) (hφ : Function.Injective φ) (rec : FUid → M Unit) (rec0 : State → Nat → Except Err State)
     (hrec : RefRec ν φ rec rec0) (hcs : CsRec rec0) (f : FUid) (sc : List Score) (d : Bool) (vm vm' : VM) (hw : WF vm)
@@ -635,25 +662,37 @@ theorem corevm_abort_is_op (hν : Function.Injective ν) (hφ : Function.Injecti
     simp only [bind, EStateM.bind, pure] at h
     cases hx : OMap.lookup f vm.r.fx with
     | none =>
-      have : isReferenceActivated f vm = .error (.py "KeyError" f) vm := by
-        unfold isReferenceActivated
-        simp only [bind, EStateM.bind, getInstX_run_none f vm hx]
-      rw [this] at h; cases h
+      cases d with
+      | true =>
+        have : deactivatesRef true f vm = .error (.py "KeyError" f) vm := by
+          rw [deactivatesRef_true]
+          unfold isReferenceActivated
+          simp only [bind, EStateM.bind, getInstX_run_none f vm hx]
+        rw [this] at h; cases h
+      | false =>
+        have : deactivatesRef false f vm = .ok false vm := rfl
+        rw [this] at h
+        simp only [Bool.false_eq_true, if_false] at h
+        exact absurd h (vmAbortBody_no_record _ f sc false vm vm' hw.i hx)
     | some x =>
     have hfl : (absVM ν φ vm).flows (ν f) = some (absFlow ν φ vm f x) := by rw [absVM_flows ν φ hν, hx]; rfl
     simp only [Lifetime.abortFlow]
     unfold deactivatePhase
     rw [hfl]
     simp only
-    rcases isReferenceActivated_refines ν φ hν hφ f vm x hx with ⟨b, hb1, hb2⟩ | ⟨msg, he, _⟩
+    rcases deactivatesRef_refines ν φ hν hφ d f vm x hx with ⟨b, hb1, hb2⟩ | ⟨msg, he⟩
     · rw [hb1] at h
       simp only at h
-      by_cases hdb : (d && b) = true
+      by_cases hdb : b = true
       · -- the reference count is decremented
-        simp only [Bool.and_eq_true] at hdb
-        obtain ⟨hd, hbt⟩ := hdb
-        subst hd; subst hbt
-        simp only [Bool.and_self, if_true, hb2] at h ⊢
+        subst hdb
+        have hd : d = true := by
+          cases d with
+          | true => rfl
+          | false => simp at hb2
+        subst hd
+        simp only [if_true] at hb2
+        simp only [if_true, hb2] at h ⊢
         simp only [EStateM.bind, modInstX_run] at h
         have hpos : 0 < x.activated := by
           unfold isRefActivated at hb2
@@ -729,16 +768,10 @@ theorem corevm_abort_is_op (hν : Function.Injective ν) (hφ : Function.Injecti
           cases h
           exact ⟨_, rfl, by rw [a1]; rfl, w1⟩
       · -- no deactivation: straight to the body
-        simp only [hdb, Bool.false_eq_true, if_false] at h
-        have hq : (if d = true then isRefActivated (absVM ν φ vm) (absFlow ν φ vm f x) else Except.ok false) = .ok false := by
-          cases d with
-          | false => rfl
-          | true =>
-            simp only [if_true, hb2]
-            cases b with
-            | false => rfl
-            | true => simp at hdb
-        rw [hq]
+        have hbf : b = false := by cases b <;> simp_all
+        subst hbf
+        simp only [Bool.false_eq_true, if_false] at h
+        rw [hb2]
         simp only
         exact body_refines ν φ hν hφ _ _ hrec hcs f sc d vm vm' hw h
     · rw [he] at h; cases h
@@ -748,30 +781,43 @@ theorem corevm_abort_is_op (hν : Function.Injective ν) (hφ : Function.Injecti
     `deactivatePhase … = (·, false)` and the run continues with `k` -/
 theorem deact_refines (hν : Function.Injective ν) (hφ : Function.Injective φ) (tail : String) (rec : FUid → M Unit)
     (rec0 : State → Nat → Except Err State) (hrec : RefRec ν φ rec rec0) (hcs : CsRec rec0) (f : FUid) (d : Bool) (k : M Unit)
-    (vm vm' : VM) (hw : WF vm) (h : vmDeact tail rec f d k vm = .ok () vm') :
+    (vm vm' : VM) (hw : WF vm) (hk0 : OMap.lookup f vm.r.fx = none → k vm ≠ .ok () vm')
+    (h : vmDeact tail rec f d k vm = .ok () vm') :
     (∃ t1, deactivatePhase rec0 (absVM ν φ vm) (ν f) d = .ok (t1, true) ∧ absVM ν φ vm' = cs t1 ∧ WF vm') ∨
     (∃ vmK tK, deactivatePhase rec0 (absVM ν φ vm) (ν f) d = .ok (tK, false) ∧ absVM ν φ vmK = cs tK ∧ WF vmK ∧ k vmK = .ok () vm') := by
   unfold vmDeact at h
   simp only [bind, EStateM.bind, pure] at h
   cases hx : OMap.lookup f vm.r.fx with
   | none =>
-    have : isReferenceActivated f vm = .error (.py "KeyError" f) vm := by
-      unfold isReferenceActivated
-      simp only [bind, EStateM.bind, getInstX_run_none f vm hx]
-    rw [this] at h; cases h
+    cases d with
+    | true =>
+      have : deactivatesRef true f vm = .error (.py "KeyError" f) vm := by
+        rw [deactivatesRef_true]
+        unfold isReferenceActivated
+        simp only [bind, EStateM.bind, getInstX_run_none f vm hx]
+      rw [this] at h; cases h
+    | false =>
+      have : deactivatesRef false f vm = .ok false vm := rfl
+      rw [this] at h
+      simp only [Bool.false_eq_true, if_false] at h
+      exact absurd h (hk0 hx)
   | some x =>
   have hfl : (absVM ν φ vm).flows (ν f) = some (absFlow ν φ vm f x) := by rw [absVM_flows ν φ hν, hx]; rfl
   unfold deactivatePhase
   rw [hfl]
   simp only
-  rcases isReferenceActivated_refines ν φ hν hφ f vm x hx with ⟨b, hb1, hb2⟩ | ⟨msg, he, _⟩
+  rcases deactivatesRef_refines ν φ hν hφ d f vm x hx with ⟨b, hb1, hb2⟩ | ⟨msg, he⟩
   · rw [hb1] at h
     simp only at h
-    by_cases hdb : (d && b) = true
-    · simp only [Bool.and_eq_true] at hdb
-      obtain ⟨hd, hbt⟩ := hdb
-      subst hd; subst hbt
-      simp only [Bool.and_self, if_true, hb2] at h ⊢
+    by_cases hdb : b = true
+    · subst hdb
+      have hd : d = true := by
+        cases d with
+        | true => rfl
+        | false => simp at hb2
+      subst hd
+      simp only [if_true] at hb2
+      simp only [if_true, hb2] at h ⊢
       simp only [EStateM.bind, modInstX_run] at h
       have hpos : 0 < x.activated := by
         unfold isRefActivated at hb2
@@ -842,16 +888,10 @@ theorem deact_refines (hν : Function.Injective ν) (hφ : Function.Injective φ
         cases h
         left
         exact ⟨_, rfl, by rw [a1]; rfl, w1⟩
-    · simp only [hdb, Bool.false_eq_true, if_false] at h
-      have hq : (if d = true then isRefActivated (absVM ν φ vm) (absFlow ν φ vm f x) else Except.ok false) = .ok false := by
-        cases d with
-        | false => rfl
-        | true =>
-          simp only [if_true, hb2]
-          cases b with
-          | false => rfl
-          | true => simp at hdb
-      rw [hq]
+    · have hbf : b = false := by cases b <;> simp_all
+      subst hbf
+      simp only [Bool.false_eq_true, if_false] at h
+      rw [hb2]
       right
       exact ⟨vm, absVM ν φ vm, rfl, rfl, hw, h⟩
   · rw [he] at h; cases h
